@@ -42,7 +42,9 @@ constexpr bool cat_on(Cat k)
     return k == ALWAYS || VERIF_AS == 4 || (VERIF_AS == 16 && (k == SHARE || k == POS)) || (VERIF_AS == 19 && (k == STATE || k == POS))
         || (VERIF_AS == 8 && k == STATE) || (VERIF_AS == 12 && (k == COLL || k == RANKS)) || (VERIF_AS == 20 && (k == OUT || k == RANKS))
         || (VERIF_AS == 18 && k == OUT) || (VERIF_AS == 7 && (k == STATE || k == RANKS)) || (VERIF_AS == 11 && k == DISTBINS)
-        || (VERIF_AS == 2 && (k == DIFF || k == DISTBINS)) || (VERIF_AS == 3 && (k == STATE || k == RANKS));
+        || (VERIF_AS == 2 && (k == DIFF || k == DISTBINS)) || (VERIF_AS == 3 && (k == STATE || k == RANKS))
+        || (VERIF_AS == 1 && (k == DIFF || k == SHARE || k == DISTBINS)) || (VERIF_AS == 6 && (k == DIFF || k == DISTBINS))
+        || (VERIF_AS == 10 && k == POS) || (VERIF_AS == 14 && (k == DIFF || k == DISTBINS));
 }
 
 #define VF_STR2(x) #x
@@ -188,6 +190,7 @@ struct Schedule
     int P = 1;
     std::uint64_t seed = 0;
     bool tree = false;
+    int gextra = 0, goffset = 0; // the communicator is ranks [goffset, goffset + P) of a global world with gextra more processes
     std::vector<int> perm(std::uint64_t salt) const
     {
         std::vector<int> v(P);
@@ -308,6 +311,7 @@ void run_case(vf::Ctx& c, vf::RunCfg<T> const& cfg, std::vector<std::size_t> con
     }
     std::vector<std::unique_ptr<Chk>> outs(P);
     shim::World world(P);
+    world.set_global(sch.gextra, sch.goffset);
     for (std::size_t r = 0; r != 64; ++r)
     {
         world.order.push_back(sch.perm(2 * r + 1));
@@ -318,7 +322,7 @@ void run_case(vf::Ctx& c, vf::RunCfg<T> const& cfg, std::vector<std::size_t> con
         hep::callback_mode::verbose_and_write_chkpt};
     std::string const file = (vf::files().cur.empty() ? std::string("/tmp/vf-c04-") + std::to_string(::getpid()) : vf::files().cur) + ".c04chk";
     std::remove(file.c_str());
-    g_tracked_file = file;
+    g_tracked_file = file.substr(0, file.size() - 7); // any temporary file next to it that shares the stem counts as well
     g_openers.clear();
     RankBuf rb;
     std::streambuf* const old = std::cout.rdbuf(&rb);
@@ -359,14 +363,15 @@ void run_case(vf::Ctx& c, vf::RunCfg<T> const& cfg, std::vector<std::size_t> con
     for (int r : g_openers) { MPI_CHECK(OUT, c, r == 0, MPI_SIG("non-root-file"), "rank " << r << " opened the checkpoint file for writing"); }
     if (writes && performed > 0)
     {
-        MPI_CHECK(OUT, c, !g_openers.empty(), MPI_SIG("file-missing"), "no rank wrote the checkpoint file");
         std::ifstream in(file);
+        MPI_CHECK(OUT, c, in.good(), MPI_SIG("file-missing"), "no rank wrote the checkpoint file");
         std::stringstream ss;
         ss << in.rdbuf();
         MPI_CHECK(OUT, c, ss.str() == text0, MPI_SIG("file-differs"), "the checkpoint file differs from the returned checkpoint");
     }
     std::remove(file.c_str());
     std::remove((file + ".tmp").c_str());
+    std::remove((file.substr(0, file.size() - 7) + ".tmp").c_str());
 
     MPI_CHECK(COLL, c, performed <= calls.size() && (target > T(0) || performed == calls.size()), MPI_SIG("iterations"), "performed " << performed << " of " << calls.size() << " iterations");
     for (int r = 0; r != P; ++r) { MPI_CHECK(COLL, c, logs[r].cuts.size() == performed, MPI_SIG("callback-count"), "rank " << r << " saw " << logs[r].cuts.size() << " callbacks for " << performed << " iterations"); }
@@ -555,15 +560,21 @@ void run(vf::Ctx& c)
     sch.seed = t.stream_seed();
     sch.tree = t.flag();
     vf::RunCfg<T> cfg = vf::gen_cfg<T>(t);
-    if (t.pick(5) == 0) { cfg.fn.family = 9; } // zero / finite / non-finite by region: the counters differ from each other
+    if (t.pick(5) < (VERIF_AS == 6 ? 3 : 1)) { cfg.fn.family = 9; } // zero / finite / non-finite by region: the counters differ from each other
     std::size_t const n = 1 + t.pick(4);
     std::vector<std::size_t> calls;
     for (std::size_t i = 0; i != n; ++i) { calls.push_back(pick_calls(t, sch.P)); }
     int const mode = static_cast<int>(t.pick(4));
     T const target = t.pick(4) == 0 ? static_cast<T>(std::pow(10.0L, -2.0L * t.unit())) : T(0);
     std::size_t const engine = t.pick(5);
+    if (t.pick(4) == 1)
+    {
+        sch.gextra = 1 + static_cast<int>(t.pick(6));
+        sch.goffset = static_cast<int>(t.pick(static_cast<std::size_t>(sch.gextra) + 1));
+    }
     c.desc << vf::type_name<T>::get() << " P=" << sch.P << " calls=" << vf::show(calls) << " mode=" << mode << " target=" << vf::show(target) << " schedule=" << sch.seed % 100000
-           << (sch.tree ? " tree-reduction" : " linear-reduction") << " engine#" << engine << ' ' << cfg.describe();
+           << (sch.tree ? " tree-reduction" : " linear-reduction") << " engine#" << engine
+           << (sch.gextra ? " sub-communicator of a world with " + std::to_string(sch.P + sch.gextra) + " processes (offset " + std::to_string(sch.goffset) + ")" : std::string()) << ' ' << cfg.describe();
 #define VF_DISPATCH(EE)                                                                                          \
     {                                                                                                            \
         using GE = vf::guard_engine<EE>;                                                                         \
@@ -590,6 +601,7 @@ void run(vf::Ctx& c)
     if (uneven && sch.P >= 2) { c.label("uneven-split"); }
     for (auto x : calls) { if (x < static_cast<std::size_t>(sch.P)) { c.label("calls<P"); break; } }
     if (sch.P >= 9) { c.label("P>=9"); }
+    if (sch.gextra) { c.label("sub-communicator"); }
     if (target > T(0)) { c.label("positive-target"); }
     if (!cfg.fn.dists.empty()) { c.label("with-distributions"); }
     if (cfg.fn.family == 9) { c.label("non-finite-region"); }
@@ -619,6 +631,14 @@ vf::Property const vf::property = {"C12", "", run, nullptr, nullptr};
 vf::Property const vf::property = {"C16", "", run, enumerate, nullptr};
 #elif VERIF_AS == 19
 vf::Property const vf::property = {"C19", "", run, nullptr, nullptr};
+#elif VERIF_AS == 1
+vf::Property const vf::property = {"C01", "", run, nullptr, nullptr};
+#elif VERIF_AS == 6
+vf::Property const vf::property = {"C06", "", run, nullptr, nullptr};
+#elif VERIF_AS == 10
+vf::Property const vf::property = {"C10", "", run, nullptr, nullptr};
+#elif VERIF_AS == 14
+vf::Property const vf::property = {"C14", "", run, nullptr, nullptr};
 #else
 vf::Property const vf::property = {"C20", "", run, nullptr, nullptr};
 #endif
